@@ -96,21 +96,29 @@ class FakeCS:
         pr.variables = [_Var(n, k) for (n, k) in c['variables']]
         pr.phase_dof = len(c['variables'])
         pr.num_statevars = len(c['svs'])
-        self.dof = np.array(c['dof'], float)
-        self.X = np.array(c['X'], float)
         self.calls = []
+        self._d = {}
+        self.update(c)
         if 'd2g' in c:
-            d2g, dg, dxdy, moleA, cons = (np.array(c[k], float) for k in ('d2g', 'dg', 'dxdy', 'moleA', 'cons'))
-            pr.num_internal_cons = len(cons)
+            pr.num_internal_cons = len(c['cons'])
+            D = self._d
 
-            def formulamole_grad(out, dof, idx): out[:] = dxdy[idx]
-            def formulamole_obj(out, dof, idx): out[:] = moleA[idx]
-            def formulagrad(out, dof): out[:] = dg
-            def formulahess(out, dof): out[:] = d2g
-            def internal_cons_jac(out, dof): out[:] = cons.reshape(np.shape(out))
+            def formulamole_grad(out, dof, idx): out[:] = D['dxdy'][idx]
+            def formulamole_obj(out, dof, idx): out[:] = D['moleA'][idx]
+            def formulagrad(out, dof): out[:] = D['dg']
+            def formulahess(out, dof): out[:] = D['d2g']
+            def internal_cons_jac(out, dof): out[:] = D['cons'].reshape(np.shape(out))
             pr.formulamole_grad, pr.formulamole_obj = formulamole_grad, formulamole_obj
             pr.formulagrad, pr.formulahess, pr.internal_cons_jac = formulagrad, formulahess, internal_cons_jac
         self.phase_record = pr
+
+    def update(self, c):
+        """a new state in the SAME object (pycalphad re-solves composition sets in place)"""
+        self.dof = np.array(c['dof'], float)
+        self.X = np.array(c['X'], float)
+        for k in ('d2g', 'dg', 'dxdy', 'moleA', 'cons'):
+            if k in c:
+                self._d[k] = np.array(c[k], float)
 
 
 def callables_of(c):
@@ -456,9 +464,24 @@ def corpus_cases():
     if os.path.isdir(p):
         for f in sorted(os.listdir(p)):
             if f.endswith('.json'):
-                c = unhexcase(json.load(open(os.path.join(p, f)))['input'])
+                obj = json.load(open(os.path.join(p, f)))
+                if 'input' not in obj:
+                    continue                    # a database scenario (see shared_database_check)
+                c = unhexcase(obj['input'])
                 c['kind'] = 'corpus:' + f + ':' + c.get('kind', '')
                 out.append(c)
+    return out
+
+
+def corpus_scenarios():
+    out = []
+    p = os.path.join(VERIF, 'corpus', 'C10')
+    if os.path.isdir(p):
+        for f in sorted(os.listdir(p)):
+            if f.endswith('.json'):
+                obj = json.load(open(os.path.join(p, f)))
+                if 'scenario' in obj:
+                    out.append(dict(obj['scenario'], origin='corpus:' + f))
     return out
 
 
@@ -649,14 +672,14 @@ def reg_point(ar, user, xsol, T):
             'moleA': [float(v) for v in y], 'cons': cons.tolist(), 'mu': [float(v) for v in mu]}
 
 
-def reg_expected(c, xsol, T):
+def reg_expected(c, xsol, T, corr=None, fn_phase='MATRIX'):
     """closed form, no kawin code: tracer = R T M_e(T); interdiffusivity = (volume-fixed Onsager matrix) * (second
     derivative of G with respect to the solute fractions, reference compensating) - Darken's relation for a binary"""
     ar = c['arrays']
     user, subs, els = ar['user'], ar['subs'], c['elements']
-    corr = corr_vec(c)
+    corr = dict(zip(els, corr_vec(c))) if corr is None else corr
     Xu = np.array([1.0 - float(np.sum(xsol))] + [float(v) for v in np.ravel(xsol)])
-    Mu = np.array([corr[els.index(e)] * user_value(c, 'MATRIX', els.index(e), T) for e in user])
+    Mu = np.array([corr[e] * user_value(c, fn_phase, els.index(e), T) for e in user])
     Lr = np.array(ar['reg']['L'])
     Lr = Lr + Lr.T
     iu = [subs.index(e) for e in user]
@@ -670,13 +693,14 @@ def reg_expected(c, xsol, T):
     return RGAS * T * Mu, Lo @ H
 
 
-def run_arrays(c):
-    """array calls through the public getters; the local equilibrium is scripted as a function of (x, T)"""
+def point_therm(c, corr=None, fn_phase='MATRIX'):
+    """scripted GeneralThermodynamics whose local equilibrium is a function of (x, T) (regular solution of the case's
+    substitutional elements); like pycalphad it re-solves a composition set it is handed IN PLACE and returns the same
+    object; mobilities = the user functions of fn_phase attached through setMobility"""
     from kawin.thermo.Thermodynamics import GeneralThermodynamics
-    ar = c.get('arrays')
-    if not ar:
-        return None
+    ar = c['arrays']
     user, els = ar['user'], c['elements']
+    corr = dict(zip(els, corr_vec(c))) if corr is None else dict(corr)
 
     class _T(GeneralThermodynamics):
         def __init__(self):
@@ -686,19 +710,36 @@ def run_arrays(c):
             self._diffusivity_cache = {}
             self.mobCallables = {'MATRIX': None}
             self.diffCallables = {'MATRIX': None}
-            self.mobility_correction = {e: f for e, f in zip(els, corr_vec(c))}
+            self.mobility_correction = dict(corr)
             self.mobility_correction['VA'] = 1
             self.vacancyPoorInterstitialSublattice = {}
             self._parameters = {}
             self.points = []
+            self.reused = 0
 
         def getLocalEq(self, x, T, gExtra=0, precPhase=None, composition_sets=None):
             self.points.append(([float(v) for v in np.ravel(x)], float(T)))
             d = reg_point(ar, user, np.ravel(x), float(T))
+            if composition_sets:
+                composition_sets[0].update(d)
+                self.reused += 1
+                return types.SimpleNamespace(chemical_potentials=np.array(d['mu'])), composition_sets
             return types.SimpleNamespace(chemical_potentials=np.array(d['mu'])), [FakeCS(d)]
 
     th = _T()
-    th.setMobility({e: user_function(c, 'MATRIX', els.index(e)) for e in user}, 'MATRIX')
+    th.setMobility({e: user_function(c, fn_phase, els.index(e)) for e in user}, 'MATRIX')
+    return th
+
+
+def run_arrays(c):
+    """array calls through the public getters; the local equilibrium is scripted as a function of (x, T)"""
+    from kawin.thermo.Thermodynamics import GeneralThermodynamics
+    ar = c.get('arrays')
+    if not ar:
+        return None
+    user, els = ar['user'], c['elements']
+
+    th = point_therm(c)
     ns = len(user) - 1
     recs = []
     for sc in ar['scenarios']:
@@ -719,6 +760,130 @@ def run_arrays(c):
                 rec[name + '_err'] = err_enum(e)
         recs.append(rec)
     return recs
+
+
+def history_hits(c):
+    """calling conventions, histories on one object, objects used interleaved, module functions on a composition set that is
+    re-solved in place: every value is compared with the closed form of ITS point and ITS object's final configuration
+    (and the conventions with each other).  -> (clause, site, cls, message)"""
+    from kawin.thermo import Mobility as MB, FreeEnergyHessian as FH
+    ar = c.get('arrays')
+    if not ar:
+        return []
+    v, seen = [], set()
+    user, els = ar['user'], c['elements']
+    ns = len(user) - 1
+    sep = [s_ for s_ in ar['scenarios'] if s_['kind'] == 'separated'][0]
+    pts = [(list(x), float(T)) for x, T in zip(sep['x'], sep['T'])]
+    corr0 = dict(zip(els, corr_vec(c)))
+
+    def hit(clause, cls, msg):
+        if (clause, cls) not in seen:
+            seen.add((clause, cls))
+            v.append((clause, SITE_T, cls, msg))
+
+    def xarg_of(x):
+        return x[0] if ns == 1 else list(x)
+
+    def check(tag, cls, got_D, got_tr, x, T, corr, fnp):
+        tr, D = reg_expected(c, x, T, corr, fnp)
+        for nm, got, want in (('getInterdiffusivity', got_D, D), ('getTracerDiffusivity', got_tr, tr)):
+            if got is None:
+                continue
+            got = np.array(got, float)
+            if got.size != np.size(want):
+                hit('calling_convention' if cls.startswith('convention') else 'object_history', cls + ' shape', '%s: %s returned an array of size %d for one point (x=%r, T=%r)' % (tag, nm, got.size, x, T))
+                continue
+            err = float(np.max(np.abs(got.reshape(np.shape(want)) - want)) / np.max(np.abs(want)))
+            if err > 1e-11:
+                hit('calling_convention' if cls.startswith('convention') else 'object_history', cls + ' ' + nm,
+                    '%s: %s at x=%r, T=%r (elements %r) returned %r; closed form for this point and this object (corrections %r) = %r, relative difference %.3g'
+                    % (tag, nm, x, T, user, got.tolist(), {e: corr[e] for e in user}, np.array(want).tolist(), err))
+
+    try:
+        # ---- (a) calling conventions on one point; argument objects unchanged and re-used
+        th = point_therm(c)
+        x0, T0 = pts[0]
+        Ti = float(int(T0))
+        forms_x = [('list', list(x0)), ('tuple', tuple(x0)), ('1-d array', np.array(x0, float)), ('2-d array', np.array([x0], float)), ('list of lists', [list(x0)])]
+        if ns == 1:
+            forms_x += [('float', float(x0[0])), ('numpy scalar', np.float64(x0[0])), ('0-d array', np.array(x0[0]))]
+        forms_T = [('float', Ti), ('int', int(Ti)), ('numpy float', np.float64(Ti)), ('numpy int', np.int64(Ti)), ('0-d array', np.array(Ti)), ('list', [Ti]), ('1-d array', np.array([Ti]))]
+        for (nx, xa) in forms_x:
+            for (nT, Ta) in forms_T[:3] if nx not in ('list', 'float') else forms_T:
+                keep_x = copy.deepcopy(xa); keep_T = copy.deepcopy(Ta)
+                for how, call in (('positional', lambda f: f(xa, Ta)), ('keyword', lambda f: f(x=xa, T=Ta, removeCache=True, phase=None)),
+                                  ('positional optional', lambda f: f(xa, Ta, True, 'MATRIX')), ('keep cache', lambda f: f(xa, Ta, removeCache=False))):
+                    try:
+                        gD, gt = call(th.getInterdiffusivity), call(th.getTracerDiffusivity)
+                    except Exception as e:
+                        if err_enum(e) != 'LinAlgError':
+                            hit('calling_convention', 'convention raises', 'getInterdiffusivity/getTracerDiffusivity with x as %s, T as %s (%s): %s: %s' % (nx, nT, how, err_enum(e), str(e)[:150]))
+                        continue
+                    check('x as %s, T as %s, %s arguments' % (nx, nT, how), 'convention', gD, gt, x0, Ti, corr0, 'MATRIX')
+                if not (np.array_equal(np.asarray(keep_x), np.asarray(xa)) and np.array_equal(np.asarray(keep_T), np.asarray(Ta))):
+                    hit('calling_convention', 'argument modified', 'the %s passed as x or the %s passed as T was modified by the call (x now %r, T now %r)' % (nx, nT, xa, Ta))
+        # ---- (b) history on ONE object: query, setter, query again; kept composition sets (removeCache=False) along a path
+        th = point_therm(c)
+        corr = dict(corr0)
+
+        def q(th_, x, T, rc, corr_, fnp, tag, cls='history'):
+            try:
+                gD = th_.getInterdiffusivity(xarg_of(x), T, removeCache=rc)
+                gt = th_.getTracerDiffusivity(xarg_of(x), T, removeCache=rc)
+            except Exception as e:
+                if err_enum(e) != 'LinAlgError':
+                    hit('object_history', cls + ' raises', '%s: %s: %s' % (tag, err_enum(e), str(e)[:150]))
+                return
+            check(tag, cls, gD, gt, x, T, corr_, fnp)
+        for k, (x, T) in enumerate(pts + pts[:1]):
+            q(th, x, T, False, corr, 'MATRIX', 'point %d of a path followed with removeCache=False (composition set re-solved in place, re-used %d times so far)' % (k, th.reused), 'history kept composition set')
+        e1 = user[min(1, ns)]
+        th.setMobilityCorrection(e1, 3.0); corr[e1] = 3.0
+        q(th, pts[0][0], pts[0][1], True, corr, 'MATRIX', "after setMobilityCorrection(%r, 3.0)" % e1, 'history setMobilityCorrection')
+        q(th, pts[1][0], pts[1][1], False, corr, 'MATRIX', "after setMobilityCorrection(%r, 3.0), removeCache=False" % e1, 'history setMobilityCorrection')
+        th.setMobilityCorrection('all', 0.25); corr = {e: 0.25 for e in corr}
+        q(th, pts[1][0], pts[1][1], False, corr, 'MATRIX', "after setMobilityCorrection('all', 0.25)", 'history setMobilityCorrection')
+        th.setMobility({e: user_function(c, 'SECOND', els.index(e)) for e in user}, 'MATRIX')
+        q(th, pts[2][0], pts[2][1], False, corr, 'SECOND', 'after setMobility(other functions)', 'history setMobility')
+        th.clearCache()
+        q(th, pts[0][0], pts[0][1], True, corr, 'SECOND', 'after clearCache()', 'history clearCache')
+        # ---- (c) two objects alive together, configured differently, used interleaved
+        cA, cB = dict(corr0), {e: 1.0 for e in corr0}
+        A, B = point_therm(c, cA, 'MATRIX'), point_therm(c, cB, 'SECOND')
+        q(A, pts[0][0], pts[0][1], False, cA, 'MATRIX', 'object A, first query', 'interleaved objects')
+        q(B, pts[0][0], pts[0][1], False, cB, 'SECOND', 'object B, first query', 'interleaved objects')
+        A.setMobilityCorrection(user[0], 7.0); cA[user[0]] = 7.0
+        q(B, pts[1][0], pts[1][1], False, cB, 'SECOND', 'object B after A.setMobilityCorrection(%r, 7.0)' % user[0], 'interleaved objects')
+        q(A, pts[1][0], pts[1][1], False, cA, 'MATRIX', 'object A after its setMobilityCorrection(%r, 7.0)' % user[0], 'interleaved objects')
+        B.setMobilityCorrection('all', 0.5); cB = {e: 0.5 for e in cB}
+        Cc = dict(corr0)
+        C = point_therm(c, Cc, 'MATRIX')
+        q(C, pts[2][0], pts[2][1], True, Cc, 'MATRIX', "object C built after B.setMobilityCorrection('all', 0.5)", 'interleaved objects')
+        q(A, pts[2][0], pts[2][1], False, cA, 'MATRIX', "object A after B.setMobilityCorrection('all', 0.5)", 'interleaved objects')
+        q(B, pts[2][0], pts[2][1], False, cB, 'SECOND', "object B after its setMobilityCorrection('all', 0.5)", 'interleaved objects')
+        # ---- (d) module functions on a composition set that is re-solved in place between the calls
+        d0, d1 = reg_point(ar, user, pts[0][0], pts[0][1]), reg_point(ar, user, pts[1][0], pts[1][1])
+        mob = {e: (lambda dof, m=m: m) for e, m in zip(ar['subs'], [1e-16 * (k + 1) for k in range(len(ar['subs']))])}
+        cs = FakeCS(d0)
+        ref = user[0]
+        fns = [('dMudX', lambda cs_, d: FH.dMudX(np.array(d['mu']), cs_, ref)), ('partialdMudX', lambda cs_, d: FH.partialdMudX(np.array(d['mu']), cs_)),
+               ('hessian', lambda cs_, d: FH.hessian(np.array(d['mu']), cs_)), ('mobility_matrix', lambda cs_, d: MB.mobility_matrix(cs_, mob)),
+               ('interdiffusivity', lambda cs_, d: MB.interdiffusivity(np.array(d['mu']), cs_, ref, mob)[0]), ('tracer_diffusivity', lambda cs_, d: MB.tracer_diffusivity(cs_, mob))]
+        for nm, f in fns:
+            cs.update(d0)
+            f(cs, d0)
+            cs.update(d1)
+            got = np.array(f(cs, d1), float)
+            want = np.array(f(FakeCS(d1), d1), float)
+            if not np.allclose(got, want, rtol=1e-12, atol=0):
+                hit('object_history', 'composition set re-solved in place ' + nm,
+                    '%s called on a composition set at state 0 (x=%r, T=%r) and again after the SAME object was re-solved to state 1 (x=%r, T=%r) returns %r; on a new object holding state 1: %r'
+                    % (nm, pts[0][0], pts[0][1], pts[1][0], pts[1][1], got.tolist(), want.tolist()))
+    except AttributeError as e:
+        # private access of the harness itself (scripted subclass): never a violation with an input
+        raise RuntimeError('harness: scripted thermodynamics object no longer fits GeneralThermodynamics: %s' % e)
+    return v
 
 
 def array_terms(c, im):
@@ -1098,6 +1263,8 @@ def oracle(c, im):
         return v
     # (5) functions attached through the public setters, and the phase= argument
     v += setter_oracle(c, im)
+    # (7) calling conventions, histories on one object, interleaved objects, composition sets re-solved in place
+    v += history_hits(c)
     # (6) array calls: every entry belongs to its own point
     v += array_oracle(c, im, im.get('arr_model'))
     user_all = [els[r]] + list(c['user_solutes'])
@@ -1357,6 +1524,176 @@ def database_sampling(ctx, quick):
                             'interdiffusivity': D.tolist(), 'eigenvalues': [float(z.real) for z in evD]}, limit=12)
 
 
+def database_sources():
+    import kawin.tests.datasets as ds
+    return {'Al-Zr': ds.ALZR_TDB, 'Ni-Cr-Al': ds.NICRAL_TDB, 'Fe-Cr-Ni': ds.FECRNI_DB, 'Al-Mg-Si': ds.ALMGSI_DB,
+            'Cu-Ti': open(os.path.join(REPO, 'examples', 'CuTi.tdb')).read()}
+
+
+def shared_database_check(ctx, quick, only=None):
+    """SAMPLING (pycalphad): the diffusivities of a thermodynamics object are those of the database it was given, whether or
+    not other objects were built from the same pycalphad Database object before (any order of construction, other element
+    orders, other phase lists).  Every object of a construction sequence is compared, at one point, with an object built
+    from a freshly loaded database: tracer diffusivity (= R*T*mobility of the database), interdiffusivity, dMudX"""
+    import warnings
+    warnings.filterwarnings('ignore')
+    from pycalphad import Database
+    from kawin.thermo import GeneralThermodynamics
+    from kawin.thermo.FreeEnergyHessian import dMudX
+    src = database_sources()
+    scen = corpus_scenarios()
+    scen += [] if only is not None else [
+        # an ordered precipitate: the matrix phase gets a disordered copy DIS_<phase> inserted into the database
+        {'system': 'Ni-Cr-Al', 'x': [0.08, 0.1], 'T': 1073.15,
+         'builds': [[['NI', 'CR', 'AL'], ['FCC_A1', 'FCC_L12']], [['NI', 'CR', 'AL'], ['FCC_A1', 'FCC_L12']], [['NI', 'AL', 'CR'], ['FCC_A1', 'FCC_L12']], [['NI', 'CR', 'AL'], ['FCC_A1']]]},
+        {'system': 'Ni-Cr-Al', 'x': [0.05, 0.12], 'T': 1273.15,
+         'builds': [[['NI', 'CR', 'AL'], ['FCC_A1']], [['NI', 'CR', 'AL'], ['FCC_A1', 'FCC_L12']], [['NI', 'CR', 'AL'], ['FCC_A1']], [['NI', 'CR', 'AL'], ['FCC_A1', 'FCC_L12']]]},
+        {'system': 'Al-Zr', 'x': [0.003], 'T': 700.0, 'builds': [[['AL', 'ZR'], ['FCC_A1', 'AL3ZR']], [['AL', 'ZR'], ['FCC_A1', 'AL3ZR']], [['AL', 'ZR'], ['FCC_A1']]]},
+    ]
+    if only is not None:
+        scen = list(only)
+    elif not quick:
+        scen += [
+            {'system': 'Fe-Cr-Ni', 'x': [0.2, 0.1], 'T': 1300.0, 'builds': [[['FE', 'CR', 'NI'], ['FCC_A1', 'BCC_A2']], [['FE', 'NI', 'CR'], ['FCC_A1', 'BCC_A2']], [['FE', 'CR', 'NI'], ['BCC_A2', 'FCC_A1']], [['FE', 'CR', 'NI'], ['FCC_A1', 'BCC_A2']]]},
+            {'system': 'Al-Mg-Si', 'x': [0.004, 0.005], 'T': 600.0, 'builds': [[['AL', 'MG', 'SI'], ['FCC_A1', 'MGSI_B_P']], [['AL', 'SI', 'MG'], ['FCC_A1', 'MGSI_B_P', 'MG5SI6_B_DP']], [['AL', 'MG', 'SI'], ['FCC_A1', 'MGSI_B_P']]]},
+            {'system': 'Cu-Ti', 'x': [0.015], 'T': 900.0, 'builds': [[['CU', 'TI'], ['FCC_A1', 'CU4TI']], [['CU', 'TI'], ['FCC_A1', 'CU4TI']]]},
+        ]
+    stats = ctx.notes.setdefault('shared_database', {'objects_compared': 0, 'max_rel_difference': 0.0})
+
+    def query(th, els, x, T):
+        xs = list(x)
+        ph = th.phases[0]
+        res, cs = th.getLocalEq(xs if len(xs) > 1 else xs[0], T, 0, [ph])
+        return {'tracer': np.atleast_1d(th.getTracerDiffusivity(xs if len(xs) > 1 else xs[0], T)),
+                'interdiffusivity': np.atleast_2d(th.getInterdiffusivity(xs if len(xs) > 1 else xs[0], T)),
+                'dMudX': np.atleast_2d(dMudX(np.array(res.chemical_potentials), cs[0], els[0]))}
+    seen = set()
+    for sc in scen:
+        name = sc['system']
+        try:
+            db = Database(src[name])
+            fresh = {}
+            for k, (els, phases) in enumerate(sc['builds']):
+                # composition is given for the solutes of the first build; re-label for other element orders
+                els0 = sc['builds'][0][0]
+                x = [sc['x'][els0[1:].index(e)] for e in els[1:]]
+                key = json.dumps([els, phases])
+                if key not in fresh:
+                    fresh[key] = query(GeneralThermodynamics(src[name], list(els), list(phases)), els, x, sc['T'])
+                th = GeneralThermodynamics(db, list(els), list(phases))
+                got = query(th, els, x, sc['T'])
+                stats['objects_compared'] += 1
+                ctx.count({'shared_database': name, 'build': k, 'seq': sc['builds'], 'x': sc['x'], 'T': sc['T']}, True)
+                ctx.hist('database', name + ' (shared Database object)')
+                for q in ('tracer', 'interdiffusivity', 'dMudX'):
+                    e_ = float(np.max(np.abs(got[q] - fresh[key][q])) / np.max(np.abs(fresh[key][q])))
+                    stats['max_rel_difference'] = max(stats['max_rel_difference'], e_)
+                    if e_ > 1e-8 and (name, q) not in seen:
+                        seen.add((name, q))
+                        what = ('tracer diffusivity (R*T*mobility of the database)' if q == 'tracer' else q)
+                        ctx.violation('shared_database', {'site': SITE_T, 'cls': q},
+                                      {'kind': 'input', 'database_point': {'system': name, 'x': x, 'T': sc['T']},
+                                       'scenario': {k_: sc[k_] for k_ in ('system', 'x', 'T', 'builds')}, 'object': k,
+                                       'observed': got[q].tolist(), 'expected': fresh[key][q].tolist(),
+                                       'oracle': 'the same query on an object built from a freshly loaded copy of the same database'},
+                                      '%s, x=%r T=%r: object %d of the sequence %r built from ONE pycalphad Database object gives %s = %r; built from a freshly loaded database: %r'
+                                      % (name, x, sc['T'], k, sc['builds'], what, got[q].tolist(), fresh[key][q].tolist()))
+        except Exception as e:
+            ctx.violation('no_internal_error', {'site': SITE_T, 'cls': 'shared database ' + name}, {'kind': 'input', 'scenario': sc, 'error': str(e)[:300]},
+                          '%s: objects built from one Database object: %s: %s' % (name, err_enum(e), str(e)[:200]))
+
+
+def object_history_check(ctx, quick):
+    """SAMPLING (pycalphad, real objects): two or three thermodynamics objects alive together and configured differently
+    (setMobilityCorrection on one must not change another, nor one built afterwards); histories on one object (setter between
+    two queries; a path followed with removeCache=False / composition sets handed back to getLocalEq) compared with a fresh
+    object given the final configuration"""
+    import warnings
+    warnings.filterwarnings('ignore')
+    from kawin.thermo import GeneralThermodynamics
+    from kawin.thermo.FreeEnergyHessian import dMudX
+    src = database_sources()
+    systems = [('Ni-Cr-Al', ['NI', 'CR', 'AL'], ['FCC_A1', 'FCC_L12'], [[0.08, 0.10], [0.12, 0.05], [0.04, 0.14]], [1073.15, 1173.15, 1273.15]),
+               ('Cu-Ti', ['CU', 'TI'], ['FCC_A1', 'CU4TI'], [[0.01], [0.02], [0.004]], [800.0, 900.0, 1000.0])]
+    if not quick:
+        systems += [('Al-Zr', ['AL', 'ZR'], ['FCC_A1', 'AL3ZR'], [[0.002], [0.004], [0.001]], [650.0, 750.0, 850.0]),
+                    ('Fe-Cr-Ni', ['FE', 'CR', 'NI'], ['FCC_A1', 'BCC_A2'], [[0.2, 0.1], [0.1, 0.25], [0.25, 0.05]], [1250.0, 1350.0, 1450.0]),
+                    ('Al-Mg-Si', ['AL', 'MG', 'SI'], ['FCC_A1', 'MGSI_B_P'], [[0.004, 0.005], [0.008, 0.002], [0.002, 0.008]], [550.0, 650.0, 750.0])]
+    stats = ctx.notes.setdefault('object_histories', {'comparisons': 0, 'max_rel_difference_independence': 0.0, 'max_rel_difference_kept_composition_sets': 0.0})
+    for (name, els, phases, xs, Ts) in systems:
+        seen = set()
+
+        def xa(x):
+            return list(x) if len(x) > 1 else x[0]
+
+        def query(th, x, T, rc=True):
+            return {'tracer': np.atleast_1d(th.getTracerDiffusivity(xa(x), T, removeCache=rc)), 'interdiffusivity': np.atleast_2d(th.getInterdiffusivity(xa(x), T, removeCache=rc))}
+
+        def same(tag, cls, got, want, tol, key, scale=None):
+            for q_ in ('tracer', 'interdiffusivity'):
+                w = want[q_] if scale is None else want[q_] * scale[q_]
+                e_ = float(np.max(np.abs(got[q_] - w)) / np.max(np.abs(w)))
+                stats[key] = max(stats[key], e_)
+                stats['comparisons'] += 1
+                if e_ > tol and (cls, q_) not in seen:
+                    seen.add((cls, q_))
+                    ctx.violation('object_history', {'site': SITE_T, 'cls': cls + ' ' + q_},
+                                  {'kind': 'input', 'database_point': {'system': name, 'elements': els, 'phases': phases, 'x': xs, 'T': Ts}, 'history': tag,
+                                   'observed': got[q_].tolist(), 'expected': np.array(w).tolist()},
+                                  '%s (%r): %s: %s = %r, expected %r (relative difference %.3g)' % (name, els, tag, q_, got[q_].tolist(), np.array(w).tolist(), e_))
+        try:
+            mk = lambda: GeneralThermodynamics(src[name], list(els), list(phases))
+            A, B = mk(), mk()
+            p0 = (xs[0], Ts[0])
+            base = query(B, *p0)
+            ctx.count({'object_history': name}, True)
+            ctx.hist('database', name + ' (object histories)')
+            same('object A and object B built alike, no setter called', 'independent objects', query(A, *p0), base, 1e-9, 'max_rel_difference_independence')
+            e1 = els[1]
+            A.setMobilityCorrection(e1, 3.0)
+            same('object B after A.setMobilityCorrection(%r, 3.0)' % e1, 'setter on another object', query(B, *p0), base, 1e-9, 'max_rel_difference_independence')
+            C = mk()
+            same('object C built after A.setMobilityCorrection(%r, 3.0)' % e1, 'object built afterwards', query(C, *p0), base, 1e-9, 'max_rel_difference_independence')
+            gA = query(A, *p0)
+            sc_tr = np.array([3.0 if e == e1 else 1.0 for e in els])
+            eA = float(np.max(np.abs(gA['tracer'] - base['tracer'] * sc_tr)) / np.max(np.abs(base['tracer'] * sc_tr)))
+            stats['comparisons'] += 1
+            if eA > 1e-9:
+                ctx.violation('object_history', {'site': SITE_T, 'cls': 'own setter tracer'}, {'kind': 'input', 'database_point': {'system': name, 'x': xs[0], 'T': Ts[0]}, 'observed': gA['tracer'].tolist()},
+                              '%s: after A.setMobilityCorrection(%r, 3.0) the tracer diffusivities of A are %r, expected %r' % (name, e1, gA['tracer'].tolist(), (base['tracer'] * sc_tr).tolist()))
+            A.setMobilityCorrection('all', 0.5)
+            same("object B after A.setMobilityCorrection('all', 0.5)", 'setter on another object', query(B, *p0), base, 1e-9, 'max_rel_difference_independence')
+            same("object A after its setMobilityCorrection('all', 0.5)", 'own setter', query(A, *p0), base, 1e-9, 'max_rel_difference_independence', scale={'tracer': 0.5, 'interdiffusivity': 0.5})
+            # ---- a path on ONE object with kept composition sets, against fresh evaluations
+            Dfresh = mk()
+            path = list(zip(xs, Ts)) + [p0]
+            want = [query(Dfresh, x, T, True) for (x, T) in path]
+            for k, (x, T) in enumerate(path):
+                same('point %d of the path %r followed on one object with removeCache=False' % (k, path), 'kept composition sets', query(B, x, T, False), want[k], 1e-5, 'max_rel_difference_kept_composition_sets')
+            Darr = np.array(C.getInterdiffusivity([xa(x) for x in xs], Ts, removeCache=False), float).reshape(len(Ts), len(els) - 1, len(els) - 1)
+            for k in range(len(Ts)):
+                same('entry %d of the array call getInterdiffusivity(%r, %r, removeCache=False)' % (k, xs, Ts), 'kept composition sets array', {'tracer': want[k]['tracer'], 'interdiffusivity': Darr[k]}, want[k], 1e-5, 'max_rel_difference_kept_composition_sets')
+            # composition sets handed back to getLocalEq, curvature at every point
+            ph = Dfresh.phases[0]
+            cs = None
+            for k, (x, T) in enumerate(path):
+                res, cs = Dfresh.getLocalEq(xa(x), T, 0, [ph], composition_sets=cs)
+                H = np.atleast_2d(dMudX(np.array(res.chemical_potentials), cs[0], els[0]))
+                res2, cs2 = C.getLocalEq(xa(x), T, 0, [ph])
+                H2 = np.atleast_2d(dMudX(np.array(res2.chemical_potentials), cs2[0], els[0]))
+                e_ = float(np.max(np.abs(H - H2)) / np.max(np.abs(H2)))
+                stats['max_rel_difference_kept_composition_sets'] = max(stats['max_rel_difference_kept_composition_sets'], e_)
+                stats['comparisons'] += 1
+                if e_ > 1e-5 and 'dMudX' not in seen:
+                    seen.add('dMudX')
+                    ctx.violation('object_history', {'site': SITE_H, 'cls': 'composition sets handed back dMudX'},
+                                  {'kind': 'input', 'database_point': {'system': name, 'path': path, 'point': k}, 'observed': H.tolist(), 'expected': H2.tolist()},
+                                  '%s: dMudX at point %d of the path %r with the composition sets handed back to getLocalEq = %r; with a new composition set at that point: %r' % (name, k, path, H.tolist(), H2.tolist()))
+        except Exception as e:
+            ctx.violation('no_internal_error', {'site': SITE_T, 'cls': 'object histories ' + name}, {'kind': 'input', 'database_point': {'system': name}, 'error': str(e)[:300]},
+                          '%s: object histories: %s: %s' % (name, err_enum(e), str(e)[:200]))
+
+
 # ------------------------------------------------------------------------------------------
 def run(ctx):
     quick = ctx.quick
@@ -1397,6 +1734,8 @@ def run(ctx):
                           'model and implementation disagree (%d cases), e.g. %s' % (n_same, d))
     ctx.notes['disagreements'] = len(dis)
     ctx.notes['oracle_hits'] = len(hits)
+    shared_database_check(ctx, quick)
+    object_history_check(ctx, quick)
     database_sampling(ctx, quick)
     for t in failed:
         ctx.violation(t, {'site': 'coq/C10/Properties.v', 'cls': 'proof'},
@@ -1423,6 +1762,13 @@ def run(ctx):
 
 
 def replay(ctx, obj):
+    if 'scenario' in obj:
+        n0 = len(ctx.violations)
+        shared_database_check(ctx, True, only=[obj['scenario']])
+        for v_ in ctx.violations[n0:]:
+            print('replay:', v_['clause'], v_['text'][:400])
+        print('replay: %d violations on this scenario' % (len(ctx.violations) - n0))
+        return 1 if len(ctx.violations) > n0 else 0
     if 'database_point' in obj:
         print('replay: database point %r - re-run ./check C10 (sampling is seeded)' % (obj['database_point'],))
         return 1
